@@ -26,7 +26,7 @@ for pid in props:
         "evidence_file": "/verif/evidence/%s.json" % pid,
         "replay_cmd_template": "./check %s --replay {path}" % pid,
         "engine": "spinecheck",
-        "level_claimed": {"category": "other", "text": c["text"], "design_ref": c["ref"]},
+        "level_claimed": {"category": "other", "text": c["text"] + ADDENDA.get(pid, ""), "design_ref": c["ref"] + "; rules as built: §8.1; validation: §10"},
         "level_note": c["note"],
         "technique": c["technique"],
     })
@@ -54,7 +54,7 @@ manifest = {
     }],
     "checks": checks,
     "not_applicable": na,
-    "notes": "Static analysis only. Every check re-loads /repo's working tree (go/packages), decides a list of structural obligations (necessary conditions of the property) and reports violating constructs by rule+construct key. Known findings are listed in /verif/known_findings.txt. Exit 2 = environment failure (not a verdict).",
+    "notes": "Static analysis only. Every check re-loads /repo's working tree (go/packages), decides a list of structural obligations (necessary conditions of the property) and reports violating constructs by rule+construct key. Known findings are listed in /verif/known_findings.txt. Exit 2 = environment failure (not a verdict), or, in the thorough tier only, a regression of the check itself found by its self-validation catalogue. Thorough = quick rules + every obligation re-decided for GOARCH=386 + self-validation of this check on scratch copies of /repo: the fix commits recorded for the property reverted, the seeded changes of /verif/seeded that break it, and the behaviour-preserving variants of /verif/selftest/neutral (DESIGN.md §1.5, §10).",
 }
 json.dump(manifest, open(os.path.join(HERE, "MANIFEST.json"), "w"), indent=1)
 print("claimed:", sorted(CLAIMED), "not applicable:", [x["property_id"] for x in na])
